@@ -191,3 +191,6 @@ cJSON_bool cJSON_ReplaceItemInObject(cJSON *o, const char *k, cJSON *n)
 /* parsing is not modelled: obligations that need a parsed document install it here */
 cJSON *model_parse_result;
 cJSON *cJSON_ParseWithOpts(const char *v, const char **e, cJSON_bool r) { (void)v; (void)r; if (e) *e = v; cJSON *x = model_parse_result; model_parse_result = 0; return x; }
+cJSON *cJSON_ParseWithLengthOpts(const char *v, size_t n, const char **e, cJSON_bool r) { (void)n; return cJSON_ParseWithOpts(v, e, r); }
+cJSON *cJSON_ParseWithLength(const char *v, size_t n) { (void)n; return cJSON_ParseWithOpts(v, 0, 0); }
+cJSON *cJSON_Parse(const char *v) { return cJSON_ParseWithOpts(v, 0, 0); }
